@@ -86,8 +86,34 @@ def text_kept_in_module_global_for_error_messages():
     edit(T, "def _run(${ctx}text, pos, start, fullparse):\n    memo = {}\n", "_CURRENT = [None]\n\ndef _run(${ctx}text, pos, start, fullparse):\n    _CURRENT[0] = text\n    memo = {}\n")
     edit(T, "        message = result[1](text, pos)", "        message = result[1](_CURRENT[0], pos)")
 
+@mutant
+def memo_module_level_cleared_unless_base_exception():
+    # module-level memo, cleared on normal exit and when an Exception passes through -- but user code
+    # can raise a BaseException (KeyboardInterrupt, SystemExit, GeneratorExit ...)
+    edit(T, "def _run(${ctx}text, pos, start, fullparse):\n    memo = {}\n", "_MEMO = {}\n\ndef _run(${ctx}text, pos, start, fullparse):\n    memo = _MEMO\n")
+    edit(T, "    while stack:\n        key, gtor = stack[-1]\n        result = gtor.send(result)\n",
+         "    while stack:\n        key, gtor = stack[-1]\n        try:\n            result = gtor.send(result)\n        except Exception:\n            memo.clear()\n            raise\n")
+    edit(T, "    if result[0]:\n        return _finalize_parse_info(text, result[1], result[2], fullparse)", "    memo.clear()\n    if result[0]:\n        return _finalize_parse_info(text, result[1], result[2], fullparse)")
+
+@mutant
+def memo_kept_while_same_text_object():
+    # "incremental" use: the memo of the previous call is kept while the caller passes the very same
+    # text object again (identity, strong reference) -- its nodes were finalised by the previous call
+    edit(T, "def _run(${ctx}text, pos, start, fullparse):\n    memo = {}\n",
+         "_LAST = [None, None]\n\ndef _run(${ctx}text, pos, start, fullparse):\n    if _LAST[0] is text:\n        memo = _LAST[1]\n    else:\n        memo = {}\n        _LAST[0], _LAST[1] = text, memo\n")
+
+@mutant
+def recursion_limit_saved_in_module_global_during_construction():
+    # non-reentrant save/restore around translation AND execution of the generated module: a construction
+    # started from a Python section of a grammar under construction (or by another thread) loses the saved value
+    edit('sourcer/grammar.py', "    # Generate and compile the souce code.\n    builder = translator.generate_source_code(docstring, parsed)\n    module = builder.compile(\n        module_name=name,\n        docstring=docstring,\n        source_var='_source_code' if include_source else None,\n    )\n",
+         "    # Generate and compile the souce code.\n    global _saved_limit\n    _saved_limit = sys.getrecursionlimit()\n    sys.setrecursionlimit(max(_saved_limit, 5000))\n    try:\n        builder = translator.generate_source_code(docstring, parsed)\n        module = builder.compile(\n            module_name=name,\n            docstring=docstring,\n            source_var='_source_code' if include_source else None,\n        )\n    finally:\n        sys.setrecursionlimit(_saved_limit)\n")
+
 if __name__ == '__main__':
     fresh()
+    only = sys.argv[2:] 
     for name, f in MUTANTS.items():
+        if only and name not in only:
+            continue
         f(); save(name); print('wrote', name)
     shutil.rmtree(WT, ignore_errors=True)
